@@ -77,8 +77,14 @@ fn deserialize<'a>(ty: &OwnedDataModelType, data: &'a [u8]) -> Result<(Value, &'
         OwnedDataModelType::I128 => {
             let (val, rest) = try_take_varint_u128(data)?;
             let val = de_zig_zag_i128(val);
-            let val = i64::try_from(val).map_err(|_| Error::ShouldSupportButDont)?;
-            let val = Value::Number(Number::from(val));
+            // serde_json holds an i128 as an i64 or, above i64::MAX, as a u64
+            let val = match i64::try_from(val) {
+                Ok(val) => Number::from(val),
+                Err(_) => {
+                    Number::from(u64::try_from(val).map_err(|_| Error::ShouldSupportButDont)?)
+                }
+            };
+            let val = Value::Number(val);
             Ok((val, rest))
         }
         OwnedDataModelType::U16 => {
